@@ -285,6 +285,10 @@ def write_evidence(rep, level, nviol, known, extra_cov):
         'notes': rep.notes,
         'obligation_ids': [o.id + ' :: ' + o.status + ' (' + o.backend + ')' for o in rep.obls],
     }
+    cross = [o for o in rep.obls if o.id.endswith('/cvc5-agreement')]
+    if cross:
+        keys = ('goals re-checked by cvc5', 'cvc5 unsat (agrees)', 'cvc5 unknown/timeout', 'cvc5 sat (disagrees)', 'seconds')
+        cov['cvc5_agreement'] = {k: round(sum((o.detail or {}).get(k, 0) for o in cross), 2) for k in keys}
     if rep.bounded:
         cov['evaluations'] = sum(b.get('evaluations', 0) for b in rep.bounded)
         cov['distinct_nontrivial'] = sum(b.get('distinct_nontrivial', 0) for b in rep.bounded)
